@@ -4,7 +4,8 @@ from tools import hydro, vlib
 
 KINDS = {"f_count": "MonoSingle", "f_union_unique_count": "MonoSingle", "f_max": None,
          "f_fold_keyed": "MonoKeys", "f_reduce_keyed": "MonoKeys", "f_keyed_max": "MonoValue",
-         "m_value_counts": "MonoValue", "m_keyed_first": "first"}
+         "m_value_counts": "MonoValue", "m_keyed_first": "first",
+         "c_union_map_unique_count": "MonoSingle", "c_filter_map_keyed_fold": "MonoKeys"}
 
 
 class C33(C28):
